@@ -105,6 +105,7 @@ func itemObs(d api.Dissector, it *api.OutputChannelItem) sx.Sx {
 	}
 	out = append(out, sx.L(sx.A("wf"), sx.A(wf)))
 	out = append(out, sx.L(sx.A("proto"), sx.S(res.Entry.Protocol.Name), sx.S(res.Entry.Protocol.Abbreviation)))
+	out = append(out, sx.L(sx.A("owner"), sx.S(res.Entry.Protocol.Macro)))
 	out = append(out, sx.L(sx.A("queries"),
 		sx.L(sx.A("method"), sx.S(res.Base.MethodQuery), sx.A(evalQuery(res.EntryJSON, res.Base.MethodQuery))),
 		sx.L(sx.A("summary"), sx.S(res.Base.SummaryQuery), sx.A(evalQuery(res.EntryJSON, res.Base.SummaryQuery))),
